@@ -2,6 +2,7 @@ package sym
 
 import (
 	"fmt"
+	"regexp"
 	"go/types"
 	"math/big"
 	"strings"
@@ -418,6 +419,28 @@ func init() {
 	}
 	for _, n := range []string{"cosmossdk.io/errors.Wrap", "cosmossdk.io/errors.Wrapf", "(*cosmossdk.io/errors.Error).Wrap", "(*cosmossdk.io/errors.Error).Wrapf", "cosmossdk.io/errors.WithType", "github.com/pkg/errors.Wrap", "github.com/pkg/errors.Wrapf", "github.com/pkg/errors.WithStack"} {
 		R(n, wrap)
+	}
+}
+
+func init() {
+	intrinsics["internal/bytealg.MakeNoZero"] = func(e *Exec, st *State, fn *ssa.Function, args []Value, depth int) []Outcome {
+		n := e.concreteInt(args[0], "MakeNoZero length")
+		return ret1(st, e.newSlice(st, types.Typ[types.Byte], n, n))
+	}
+}
+
+var denomRe = regexp.MustCompile(`^[a-zA-Z][a-zA-Z0-9/:._-]{2,127}$`)
+
+func init() {
+	intrinsics["github.com/cosmos/cosmos-sdk/types.ValidateDenom"] = func(e *Exec, st *State, fn *ssa.Function, args []Value, depth int) []Outcome {
+		s, ok := args[0].(string)
+		if !ok {
+			unsupported("ValidateDenom of a symbolic denom")
+		}
+		if denomRe.MatchString(s) {
+			return ret1(st, Iface{})
+		}
+		return ret1(st, e.makeError(st, "invalid denom: "+s))
 	}
 }
 
